@@ -1791,7 +1791,7 @@ def check_interleaved(case):
 
 FACETS = [
     Facet("sampling_model", lambda s, t: stream_case(s, t), check_model, setup=setup, shrink_quick=False,
-          rule="stream with at least one event", quick=(10, 8), thorough=(32, 60)),
+          rule="stream with at least one event", quick=(8, 8), thorough=(32, 60)),
     Facet("sampling_model_stations", lambda s, t: stream_case(s, t, station=True, kinds=["node"], nmax=3,
                                                               props=("kepler", "kepler", "sgp4", "ephem")),
           check_model, setup=setup, shrink_quick=False,
@@ -1809,9 +1809,9 @@ FACETS = [
     Facet("closed_form", closed_case, check_closed, setup=setup, shrink_quick=False,
           rule="stream with at least one event", quick=(6, 8), thorough=(16, 60)),
     Facet("shadow", shadow_case, check_shadow, setup=setup, shrink_quick=False,
-          rule="at least one umbra / penumbra event", quick=(6, 6), thorough=(16, 50)),
+          rule="at least one umbra / penumbra event", quick=(6, 5), thorough=(16, 50)),
     Facet("visibility_stream", visibility_case, check_visibility, setup=setup, shrink_quick=False,
-          rule="at least one AOS / LOS / MAX event", quick=(6, 5), thorough=(32, 25)),
+          rule="at least one AOS / LOS / MAX event", quick=(6, 4), thorough=(32, 25)),
     Facet("union", lambda s, t: stream_case(s, t, nmin=2, nmax=3), check_union, setup=setup, shrink_quick=False,
           rule="two or more listeners and at least one event", quick=(4, 5), thorough=(16, 30)),
     Facet("reuse_other_trajectory", reuse_sources_case, check_reuse_sources, setup=setup, shrink_quick=False,
